@@ -204,7 +204,7 @@ func (v *vbint) ReadFrom(r io.Reader) (int64, error) {
 	data := make([]byte, 1)
 	var i int64
 	for {
-		if _, err := r.Read(data); err != nil {
+		if _, err := io.ReadFull(r, data); err != nil {
 			return i, err
 		}
 		i++
@@ -315,7 +315,7 @@ func (v bits) fillOpt(data []byte, i int) int {
 
 func (v *bits) ReadFrom(r io.Reader) (int64, error) {
 	data := make([]byte, 1)
-	if n, err := r.Read(data); err != nil {
+	if n, err := io.ReadFull(r, data); err != nil {
 		return int64(n), err
 	}
 	return 1, v.UnmarshalBinary(data)
